@@ -23,6 +23,8 @@ inductive RErr where
   | rootMismatch
   /-- `Error::LeopardCodec(_)` -/
   | leopard
+  /-- `Error::Validation` (row without shares) -/
+  | validation
   /-- error of `Share::from_raw` / `Share::parity` -/
   | share (e : SErr)
   | panic
@@ -33,6 +35,7 @@ def RErr.kind : RErr → String
   | .edsIndexOutOfRange => "EdsIndexOutOfRange"
   | .rootMismatch => "RootMismatch"
   | .leopard => "LeopardCodec"
+  | .validation => "Validation"
   | .share e => e.kind
   | .panic => "panic"
 
@@ -87,6 +90,8 @@ def buildShares (rowIndex dataShares : Nat) : Nat → List Bytes → Except SErr
 /-- `Row::from_raw(id, raw)` with the codec's outcome on `codecInput raw` as a parameter -/
 def fromRaw (codec : List Bytes → CodecRes) (index : Nat) (raw : RawRow) : Except RErr Row :=
   let dataShares := raw.sharesHalf.length
+  if dataShares = 0 then .error .validation   -- since /repo commit 0e879ca (before: leopard_codec panicked)
+  else
   match codec (codecInput raw) with
   | .err => .error .leopard
   | .panic => .error .panic
